@@ -433,7 +433,7 @@ def free_keys(ex, uni, fam):
 @harness('C06', name='store_integrity', universe=_universe,
          tiers={'quick': [{'fam': f} for f in FAMILIES], 'thorough': [{'fam': f} for f in FAMILIES]},
          functions=[R + m for m in MODS], cover=['default-path', 'rejected-update'],
-         bounds={'pre-state': 'file already holding an entry; repository_path None; invalid charge (> atomic number)'},
+         bounds={'pre-state': 'file already holding an entry; repository_path None; invalid charge (> atomic number); new arrays with or without NaN / inf (symbolic)'},
          stubs=['as round_trip'], outside=['as round_trip'])
 def store_integrity(ex, uni, fam):
     w = World(ex, uni)
@@ -477,6 +477,24 @@ def store_integrity(ex, uni, fam):
         ex.prove(ok, 'previously-stored-key-still-readable-after-rejected-update')
     else:
         ex.cover('rejected-update')
+    # (c) an update whose arrays may contain NaN / inf (symbolic choice): it is either stored (and read back) or rejected, and in
+    #     both cases the key stored before stays readable - a write that fails half-way must not leave a truncated file behind
+    from symx import symstr
+    symstr.NONFINITE_TAGS.clear()
+    v2 = make_value(w, fam)       # written under the same key k1: last write wins if accepted, the old value stays if rejected
+    if bool(ex.bool('new_arrays_contain_nan_or_inf')):
+        symstr._tags(v2 if not isinstance(v2, float) else [], symstr.NONFINITE_TAGS)
+    try:
+        do_add(w, fam, k1, v2, None)
+        stored = True
+    except ValueError:
+        stored = False
+    try:
+        ok = same_value(fam, v2 if stored else v1, do_get(w, fam, k1, None))
+    except Exception:
+        ok = False
+    ex.prove(ok, 'update-with-non-finite-numbers-is-stored-or-rejected-leaving-the-stored-key-readable')
+    symstr.NONFINITE_TAGS.clear()
     ex.sample({'family': fam})
 
 
